@@ -35,6 +35,8 @@ pub enum Kind {
     File { content: Content, immutable: bool },
     Dir,
     DanglingSymlink,
+    /// symbolic link to a regular file: a path relative to the tree root, or `outside/<name>`
+    Symlink { target: String },
 }
 
 #[derive(Clone, Debug, Serialize, Deserialize)]
@@ -49,6 +51,9 @@ pub struct Tree {
     /// name of the root directory itself (may be hidden: `.proj`)
     pub root_name: String,
     pub entries: Vec<Entry>,
+    /// files next to the root (in `<base>/outside/`), only reachable through symlinks
+    #[serde(default)]
+    pub outside: Vec<(String, Content)>,
 }
 
 #[derive(Clone, Debug, Serialize, Deserialize, PartialEq, Eq)]
@@ -218,15 +223,43 @@ fn gen_tree(t: &mut Tape, env: &Env, st: &mut Stats, column: usize) -> Tree {
         st.label_if(immutable, "file:immutable");
         entries.push(Entry { path: p, kind: Kind::File { content, immutable } });
     }
+    // symbolic links named like eligible files that resolve to files which are NOT eligible themselves
+    let mut outside = vec![];
+    let nl = t.weighted(&[5, 3, 1]);
+    for k in 0..nl {
+        let parent = dirs[t.below(dirs.len())].clone();
+        let name = t.pick(&["link.typ", "alias.typ", "l2.typ"]);
+        let p = if parent.is_empty() { name.to_string() } else { format!("{parent}/{name}") };
+        if entries.iter().any(|e| e.path == p) {
+            continue;
+        }
+        let ineligible: Vec<String> = entries
+            .iter()
+            .filter(|e| matches!(e.kind, Kind::File { .. }))
+            .map(|e| e.path.clone())
+            .filter(|f| {
+                f.split('/').any(is_hidden) || !Path::new(f).extension().is_some_and(|x| x == "typ")
+            })
+            .collect();
+        let target = if !ineligible.is_empty() && t.coin() {
+            ineligible[t.below(ineligible.len())].clone()
+        } else {
+            let oname = format!("o{k}.{}", t.pick(&["typ", "txt"]));
+            outside.push((oname.clone(), Content::Text(fill(t.pick(UNFORMATTED), 70 + k))));
+            format!("outside/{oname}")
+        };
+        st.label("tree:symlink-to-ineligible-file");
+        entries.push(Entry { path: p, kind: Kind::Symlink { target } });
+    }
     st.label_if(root_name.starts_with('.'), "root:hidden-name");
-    Tree { root_name, entries }
+    Tree { root_name, entries, outside }
 }
 
 fn gen_invocation(t: &mut Tape, tree: &Tree, which: CliWhich, column: usize, st: &mut Stats) -> Invocation {
     let files: Vec<String> = tree
         .entries
         .iter()
-        .filter(|e| !matches!(e.kind, Kind::Dir))
+        .filter(|e| !matches!(e.kind, Kind::Dir | Kind::Symlink { .. }))
         .map(|e| e.path.clone())
         .collect();
     let dirs: Vec<String> = tree.entries.iter().filter(|e| matches!(e.kind, Kind::Dir)).map(|e| e.path.clone()).collect();
@@ -317,6 +350,12 @@ struct Snapshot {
 
 fn snapshot(root: &Path, tree: &Tree) -> Snapshot {
     let mut files = BTreeMap::new();
+    for (name, _) in &tree.outside {
+        let p = root.parent().unwrap_or(root).join("outside").join(name);
+        let bytes = std::fs::read(&p).unwrap_or_default();
+        let mt = std::fs::symlink_metadata(&p).map(|m| filetime::FileTime::from_last_modification_time(&m)).unwrap_or(filetime::FileTime::zero());
+        files.insert(format!("//outside/{name}"), (bytes, mt));
+    }
     for e in &tree.entries {
         if let Kind::File { .. } = e.kind {
             let p = root.join(&e.path);
@@ -364,7 +403,20 @@ fn materialise(tree: &Tree, env: &Env, id: u64) -> std::io::Result<Materialised>
             Kind::DanglingSymlink => {
                 let _ = std::os::unix::fs::symlink("does-not-exist-target", &p);
             }
+            Kind::Symlink { .. } => {} // after all files exist
             Kind::File { content, .. } => std::fs::write(&p, content.bytes())?,
+        }
+    }
+    if !tree.outside.is_empty() {
+        std::fs::create_dir_all(m.base.join("outside"))?;
+        for (name, content) in &tree.outside {
+            std::fs::write(m.base.join("outside").join(name), content.bytes())?;
+        }
+    }
+    for e in &tree.entries {
+        if let Kind::Symlink { target } = &e.kind {
+            let abs = if let Some(o) = target.strip_prefix("outside/") { m.base.join("outside").join(o) } else { root.join(target) };
+            let _ = std::os::unix::fs::symlink(abs, root.join(&e.path));
         }
     }
     Ok(m_finish(m, tree))
@@ -389,6 +441,9 @@ fn m_finish(mut m: Materialised, tree: &Tree) -> Materialised {
 }
 
 fn reset_mtimes(m: &Materialised, tree: &Tree) {
+    for (name, _) in &tree.outside {
+        let _ = filetime::set_file_mtime(m.base.join("outside").join(name), fixed_mtime());
+    }
     for e in &tree.entries {
         if let Kind::File { immutable, .. } = &e.kind {
             let p = m.root.join(&e.path);
@@ -928,6 +983,7 @@ impl Prop for CliProp {
             "entries": c.tree.entries.iter().map(|e| match &e.kind {
                 Kind::Dir => format!("{}/", e.path),
                 Kind::DanglingSymlink => format!("{} -> (dangling)", e.path),
+                Kind::Symlink { target } => format!("{} -> {}", e.path, target),
                 Kind::File { content, immutable } => format!("{}{} [{} bytes]", e.path, if *immutable { " (immutable)" } else { "" }, content.bytes().len()),
             }).collect::<Vec<_>>(),
             "history": c.history.iter().map(|i| format!("{:?} check={} inplace={} column={:?} tab={:?} reorder={} addressing={}", i.shape, i.check, i.inplace, i.column, i.tab, i.reorder, i.addressing)).map(|s| syn::clip(&s, 200)).collect::<Vec<_>>(),
